@@ -103,6 +103,14 @@ def run_shard(spec):
             items.append((tag, prog, [[str(i), str(d)] for i in (-1, 0, 2, 3) for d in (0, 1, 3)], lambda a: True))
         for tag, prog in faultgrid.vla_programs():
             items.append((tag, prog, [[str(n)] for n in faultgrid.vla_values(bits)], lambda a: abs(int(a[0])) <= 9))
+        for lit in [-(1 << (bits - 1)) + 1, -1000, -9, -8, -7, -1, 0, 1, 8, 9, 100, (1 << (bits - 1)) - 1, (1 << (bits - 1)) - 8, (1 << (bits - 2)), ((1 << bits) + word - 1) // word]:
+            if lit > (1 << (bits - 1)) - 1:
+                continue
+            for tag, prog in faultgrid.vla_programs(len_lit=lit):
+                items.append((f'{tag}/literal{lit}', prog, [['0']], lambda a, lit=lit: abs(lit) <= 9))
+        from ..gen import idioms
+        for tag, prog in idioms.narrowing_programs():
+            items.append((tag, prog, idioms.NARROW_ARGS, lambda a: True))
         for tag, prog in faultgrid.nonlocal_programs():
             items.append((tag, prog, [[str(k), str(d)] for k in (0, 1, 3, 60, 99, 600) for d in (0, 1)], lambda a: True))
         for i, (tag, prog, argsets, near) in enumerate(items):
